@@ -219,6 +219,15 @@ func RefLink(p Proto, block []byte) (bin string, ok bool) {
 	return string(append(out, mhb...)), true
 }
 
+// RawTwin: the CIDv1 that names the same multihash under the raw codec (another link to the same bytes).
+func RawTwin(bin string) string {
+	c, err := cid.Cast([]byte(bin))
+	if err != nil {
+		panic("harness: not a CID: " + err.Error())
+	}
+	return string(cid.NewCidV1(0x55, c.Hash()).Bytes())
+}
+
 func LinkBin(l datamodel.Link) string {
 	switch x := l.(type) {
 	case cidlink.Link:
